@@ -9,6 +9,8 @@ import Kap.Basic
 import Kap.Model.C13
 import Kap.Model.C13Prog
 import Kap.Proofs.C13Prog
+import Kap.Proofs.C13ProgImage
+import Kap.Proofs.C13DecodeTree
 import Kap.Gen.C13Tick
 import Kap.Spec.C13
 open Kap Kap.C13 Kap.C13.Gen
@@ -165,7 +167,8 @@ def cmpProg (st : St) (what : String) (obs : List String) : St :=
       | "ok" :: d =>
         match stripComments d with
         | some d' =>
-          if d' == dumpProgram p then addBr st ("prog-model" :: (if progWF p then "prog-wf" else "prog-not-wf") :: progBranches p)
+          if d' == dumpProgram p then addBr st ("prog-model" :: (if progWF p then "prog-wf" else "prog-not-wf") ::
+            (if sepOK p then "prog-sep-ok" else "prog-sep-not-ok") :: progBranches p)
           else noteMism st s!"{what}: program model {(dumpProgram p).take 40} observed {d'.take 40}"
         | none => noteMism st s!"{what}: unreadable dump"
       | _ => noteMism st s!"{what}: program model ok, observed {obs.take 4}"
@@ -292,7 +295,12 @@ def judge (_id : String) (lines : Array String) : Verdict := Id.run do
         st := { st with evs := st.evs.push (.text "fmt" s) }
         st := { st with txt := st.cur.bind fmtStr }
         match st.cur with
-        | .ok _ => st := cmpText st "fmt" obs
+        | .ok e =>
+          st := cmpText st "fmt" obs
+          -- the decidable hypotheses of lexer_reads_formatted_all / lexer_decodes_formatted, measured
+          if st.modelOff.isNone then
+            st := addBr st [if isStar e || lexOK e false false then "lex-ok" else "lex-not-ok",
+                            if decOK e then "dec-ok" else "dec-not-ok"]
         | _ => pure ()
       | _ => return .badop l
     | ["reparse"] =>
